@@ -168,6 +168,58 @@ def r187(facts, res):
                     'another `%s` reports "not regenerated" and leaves the module generated for the old type in place' % (tp, strip_generics(fb.path).split('::')[-1], tp))
 
 
+def r188(facts, res):
+    """Settings that are enums reach the cache key (and the generated code) through small rendering functions (`to_variant_tokens`,
+    `ToTokens::to_tokens`).  The rendering must be injective: different variants push different token sequences, and a variant
+    that carries data renders that data (its payload is read on its path) - otherwise two different settings produce the same
+    cache key and a change of setting is taken for "nothing changed"."""
+    R = 'R18.8'
+    n = 0
+    for b in facts.lib_bodies(['lrpar', 'cfgrammar']):
+        if b.from_expansion or b.name not in ('to_tokens', 'to_variant_tokens'):
+            continue
+        adt = facts.adts.get((b.impl_of or '').split('<')[0])
+        if not adt or adt['kind'] != 'enum':
+            continue
+        n += 1
+        key = 'render:%s::%s' % (adt['path'] if 'path' in adt else (b.impl_of or '').split('<')[0], b.name)
+        vn = {v['discr']: v for v in adt['variants']}
+        per = {}
+        bad = []
+        for p in Walker(b, facts, max_paths=512).run(0):
+            if p.end[0] != 'return':
+                continue
+            dv = [v for c, v in p.conds if c[0] == 'discr' and term_has(c, lambda x: x == ('param', 1)) and isinstance(v, int)]
+            if not dv or dv[0] not in vn:
+                continue
+            var = vn[dv[0]]
+            seq = tuple((e[2]['name'], tuple(a[1] for a in e[3] if is_const(a) and isinstance(a[1], str))) for e in p.events
+                        if e[0] == 'call' and e[2] and e[2]['name'].startswith('push'))
+            per.setdefault(var['name'], set()).add(seq)
+            if var['fields']:
+                reads = any(term_has(a, lambda x: isinstance(x, tuple) and len(x) > 3 and x[0] == 'downcast' and x[3] == var['name'])
+                            for e in p.events if e[0] == 'call' for a in e[3]) or \
+                    any(term_has(c, lambda x: isinstance(x, tuple) and len(x) > 3 and x[0] == 'downcast' and x[3] == var['name']) for c, v in p.conds)
+                if not reads:
+                    bad.append('variant %s carries data (%s) but its rendering does not use it: settings that differ only there get the same cache key' % (
+                        var['name'], ', '.join(f['ty'][:40] for f in var['fields'])))
+        missing = [v['name'] for v in adt['variants'] if v['name'] not in per]
+        if missing:
+            bad.append('no rendering path found for variant(s) %s' % missing)
+        seqs = {}
+        for name, ss in per.items():
+            for sq in ss:
+                seqs.setdefault(sq, set()).add(name)
+        for sq, names in seqs.items():
+            if len(names) > 1 and not all(vn_['fields'] for vn_ in adt['variants'] if vn_['name'] in names):
+                bad.append('variants %s are rendered by the same token sequence' % sorted(names))
+        if bad:
+            res.bad(R, key, loc_of(b), '; '.join(sorted(set(bad))[:2]), {'function': b.path})
+        else:
+            res.ok(R, key, loc_of(b), '%d variants, pairwise different renderings, payloads rendered' % len(adt['variants']))
+    res.floor(R, 'enum rendering functions', n, 5)
+
+
 def self_fields_blocks(b, names, blocks):
     out = set()
     for bb in blocks:
@@ -557,6 +609,7 @@ def r186(facts, res):
 def run(facts, res):
     r186(facts, res)
     r187(facts, res)
+    r188(facts, res)
     r181(facts, res)
     r182(facts, res)
     r183(facts, res)
